@@ -168,6 +168,17 @@ CHECKS = {
                      "raising, every listener and peer socket closed, node / application / connection threads ended.",
                 ref="4 C18", note=NODE_NOTE + "; stop() trusts select() to time out within wakeup_interval: the gate "
                 "grants the I/O loop its iterations before the census."),
+    "C19": dict(cat="exploration", tech="lockstep node harness; structural census (every container reachable from "
+                "Node, Peers, Applications + live worker threads + open sockets) at quiescence after N and 10N "
+                "operations of one kind on fresh nodes, compared",
+                text="18 kinds: inbound request/answer (basic, threading, handler returning nothing), outbound "
+                     "request/answer, DWR/DWA both ways, rejected requests (5005/3007/3003/T duplicate), late and "
+                     "unknown answers, connections established then closed by either side (with and without a "
+                     "request), refused synchronously, failed asynchronously, CEA rejected, CER rejected, unknown peer, "
+                     "CE timeout, refused while stopping; N = 40/400 (thorough 100/1000). Containers are discovered "
+                     "structurally, so a new table is covered without being named.",
+                ref="4 C19", note=NODE_NOTE + "; documented fixed-size windows (deques with maxlen, per-second slot "
+                "counters) excluded; growth threshold +2."),
 }
 
 NOT_YET = "check not built yet in this round (planned in DESIGN.md section 4); no claim is made"
